@@ -62,10 +62,12 @@ def fund_cases(draw, tier):
         shs2 = draw(st.integers(0, ns - 1))
         cfg["SH2"] = {"class": "FundamentalPriceShock", "target": draw(st.sampled_from(names)), "triggerTime": draw(st.integers(0, min(lens[shs2], 60) + 1)),
                       "priceChangeRate": draw(st.sampled_from([0.2, -0.15, 0.01])), "shockTimeLength": draw(st.integers(1, 3))}
+    # the same shock entry listed under a second session as well: every listing is a shock of its own, counted from its own session
+    relist = draw(st.sampled_from([s_ for s_ in range(ns) if s_ != shs])) if ns >= 2 and draw(st.integers(0, 3)) == 0 else None
     for s in range(ns):
         ses = {"sessionName": s, "iterationSteps": lens[s], "withOrderPlacement": draw(st.booleans()), "withOrderExecution": draw(st.booleans()),
                "withPrint": False, "maxNormalOrders": 2,
-               "events": (["P"] if s == 0 else []) + (["SH"] if s == shs else []) + (["SH2"] if s == shs2 else [])}
+               "events": (["P"] if s == 0 else []) + (["SH"] if s == shs or s == relist else []) + (["SH2"] if s == shs2 else [])}
         cfg["simulation"]["sessions"].append(ses)
     return {"config": cfg, "seed": draw(st.integers(0, 2**31 - 1))}
 
@@ -79,13 +81,13 @@ def fund_check(case):
         if key not in cfg:
             continue
         sh_ = cfg[key]
-        ss = [i for i, s in enumerate(A.sess_cfg) if key in s.get("events", [])][0]
-        start = sum(s["iterationSteps"] for s in A.sess_cfg[:ss])
-        length_ = sh_.get("shockTimeLength", 1)
-        win = [w for w in range(start + sh_["triggerTime"], start + sh_["triggerTime"] + length_) if w < A.total_steps]
-        if not sh_.get("enabled", True):
-            win = []
-        shocks.append((sh_["target"], win, sh_["priceChangeRate"], ss))
+        for ss in [i for i, s in enumerate(A.sess_cfg) if key in s.get("events", [])]:
+            start = sum(s["iterationSteps"] for s in A.sess_cfg[:ss])
+            length_ = sh_.get("shockTimeLength", 1)
+            win = [w for w in range(start + sh_["triggerTime"], start + sh_["triggerTime"] + length_) if w < A.total_steps]
+            if not sh_.get("enabled", True):
+                win = []
+            shocks.append((sh_["target"], win, sh_["priceChangeRate"], ss))
     sh = cfg["SH"]
     shs = shocks[0][3]
     length = sh.get("shockTimeLength", 1)
@@ -129,7 +131,7 @@ def fund_check(case):
                                                                          f"(expected factor {factor}; shocks {[(a_, b_, c_) for a_, b_, c_, _ in shocks]})")
     nt = bool(window)
     classes = (["window"] if window else []) + (["disabled"] if not sh["enabled"] else []) + \
-              (["window_truncated"] if sh["enabled"] and len(window) < length else []) + (["crosses_chunk_after_shock"] if window and A.total_steps > 100 else []) + (["two_shocks"] if len(shocks) == 2 else [])
+              (["window_truncated"] if sh["enabled"] and len(window) < length else []) + (["crosses_chunk_after_shock"] if window and A.total_steps > 100 else []) + (["two_shocks"] if len(shocks) >= 2 else []) + (["relisted"] if sum(1 for s_ in A.sess_cfg if "SH" in s_.get("events", [])) >= 2 else [])
     return CaseInfo(nontrivial=nt, classes=classes, steps=A.total_steps,
                     sample={"shock": sh, "session_lengths": [s["iterationSteps"] for s in A.sess_cfg], "shock_session": shs, "window": window, "seed": case["seed"]})
 
